@@ -14,16 +14,19 @@ import random
 
 from .. import common, identlib
 from ..gen import cfggen, edits
-from ..translate import hashflags, hashsrc
+from ..translate import hashflags, hashsrc, walksrc
 
 PROP = "C14"
-MODULES = ["XpmVerif.Properties.C14", "XpmVerif.Properties.HashSrc"]
+MODULES = ["XpmVerif.Properties.C14", "XpmVerif.Properties.HashSrc", "XpmVerif.Properties.WalkSrc"]
 
 
 def prove(ctx):
     msgs = [hashflags.generate(common.REPO, common.LEAN, probe=identlib.loop_flag_probe(ctx)), hashsrc.generate(common.REPO, common.LEAN)]
     ctx.notes.append(f"translator(hashsrc): {msgs[1][1]}")
     ctx.count("translator", "hashsrc:" + ("translated" if msgs[1][1].startswith("translated") else "fallback"))
+    msgs.append(walksrc.generate(common.REPO, common.LEAN))
+    ctx.notes.append(f"translator(walksrc): {msgs[2][1]}")
+    ctx.count("translator", "walksrc:" + ("translated" if msgs[2][1].startswith("translated") else "fallback"))
     common.check_proofs(ctx, MODULES, translate_msgs=msgs)
 
 
